@@ -65,7 +65,7 @@ class Trace:
         for j in range(i - 1, -1, -1):
             if self.case["ops"][j][0] == "qstate":
                 return self.res["obs"][j] if isinstance(self.res["obs"][j], list) else None
-            if self.case["ops"][j][0] not in ("qat", "qseries"):
+            if self.case["ops"][j][0] not in ("qat", "qseries", "qtimes"):
                 return None
         return None
 
@@ -73,7 +73,7 @@ class Trace:
         for j in range(i + 1, len(self.case["ops"])):
             if self.case["ops"][j][0] == "qstate":
                 return self.res["obs"][j] if isinstance(self.res["obs"][j], list) else None
-            if self.case["ops"][j][0] not in ("qat", "qseries"):
+            if self.case["ops"][j][0] not in ("qat", "qseries", "qtimes"):
                 return None
         return None
 
@@ -295,6 +295,23 @@ def mon_C06(tr):
                     if key in frozen and frozen[key] != ob[s]:
                         out.append(V("recorded-history-changed", i, series=s, t=op[1], was=frozen[key], now=ob[s]))
                     frozen.setdefault(key, ob[s])
+        if op[0] == "qtimes":
+            fut = any(x > t_now for x in op[1])
+            if isinstance(ob, list) and ob and isinstance(ob[0], E):
+                out.append(V("getters-disagree-on-refusal", i, asked=list(op[1]), now=t_now))
+            elif fut and not (isinstance(ob, E) and ob.code == 9):
+                out.append(V("future-query-not-refused", i, asked=list(op[1]), now=t_now, got=ob))
+            elif not fut and isinstance(ob, E):
+                out.append(V("past-query-refused", i, asked=list(op[1]), now=t_now, got=ob))
+            elif not fut and isinstance(ob, list):
+                # series order in qtimes: mid, last, volume, turnover, nbuy, nsell = series 1, 2, 4, 5, 6, 7 of qat/qseries
+                for s_, row in zip((1, 2, 4, 5, 6, 7), ob):
+                    for tt, v in zip(op[1], row):
+                        if tt < t_now:
+                            key = (s_, tt)
+                            if key in frozen and frozen[key] != v:
+                                out.append(V("recorded-history-changed", i, series=s_, t=tt, was=frozen[key], now=v))
+                            frozen.setdefault(key, v)
         if op[0] == "qseries" and isinstance(ob, list) and ob:
             if any(len(s) != t_now + 1 for s in ob):
                 out.append(V("series-length", i, lens=[len(s) for s in ob], now=t_now))
@@ -349,7 +366,7 @@ def mon_C08(tr):
                     out.append(V("depth-describes-book", i, side=side, got=dep, want=want))
         # which op produced this state?
         j = i - 1
-        while j >= 0 and ops[j][0] in ("qat", "qseries"):
+        while j >= 0 and ops[j][0] in ("qat", "qseries", "qtimes"):
             j -= 1
         cause = ops[j][0] if j >= 0 else None
         cause_ok = j >= 0 and not isinstance(obs[j], E)
@@ -441,9 +458,42 @@ def mon_C19(tr):
     return out
 
 
+# ------------------------------------------------------------------------------------ C10 (market part)
+def mon_C10(tr):
+    """the logger receives exactly one record per accepted order, accepted cancel, fill and expiry, in order: the stream it saw
+    equals the records the operations returned, and every order that leaves the book at a clock step has its expiry record"""
+    out = []
+    ops, obs = tr.case["ops"], tr.res["obs"]
+    want = []
+    for op, ob in zip(ops, obs):
+        if op[0] in ("add", "cancel", "resubmit", "cancel_foreign", "cancel_unsubmitted") and isinstance(ob, list):
+            want.append(ob)
+        elif op[0] in ("exec", "tick") and isinstance(ob, list):
+            want += ob
+    got = tr.res["logger"]
+    if tr.aborted is None and [repr(x) for x in got] != [repr(x) for x in want]:
+        n = min(len(got), len(want))
+        pos = next((i for i in range(n) if repr(got[i]) != repr(want[i])), n)
+        out.append(V("logger-stream-equals-events", 0, first_difference=pos, delivered=len(got), events=len(want)))
+    # independent of what the clock step returned: who left the book at the step?
+    for i, (op, ob) in enumerate(zip(ops, obs)):
+        if op[0] != "tick" or not isinstance(ob, list):
+            continue
+        before, after = tr.prev_state(i), tr.next_state(i)
+        if before is None or after is None:
+            continue
+        gone = ({x[0] for x in before[6]} | {x[0] for x in before[7]}) - ({x[0] for x in after[6]} | {x[0] for x in after[7]})
+        logged = {x[2] for x in ob if x[0] == 4}
+        if gone != logged:
+            out.append(V("every-expiry-has-exactly-one-record", i, left_the_book=sorted(gone), expiry_records=sorted(logged)))
+        if len(logged) != len([x for x in ob if x[0] == 4]):
+            out.append(V("every-expiry-has-exactly-one-record", i, duplicated=True))
+    return out
+
+
 ABORT_OWNER = {"exec": ["C03"], "tick": ["C04", "C06"], "add": ["C04", "C19"], "cancel": ["C04"], "resubmit": ["C04"],
                "cancel_foreign": ["C04"], "cancel_unsubmitted": ["C04"], "qstate": ["C08"], "qat": ["C06", "C08"],
-               "qseries": ["C06", "C08"], "run": []}
+               "qseries": ["C06", "C08"], "qtimes": ["C06", "C08"], "run": []}
 
 
 def guarded(mon, prop=None):
@@ -463,5 +513,5 @@ def guarded(mon, prop=None):
 
 
 MONITORS = {"C01": mon_C01, "C02": mon_C02, "C03": mon_C03, "C04": mon_C04, "C06": mon_C06, "C08": mon_C08,
-            "C19": mon_C19}
+            "C10": mon_C10, "C19": mon_C19}
 MONITORS = {k: guarded(v, k) for k, v in MONITORS.items()}
